@@ -60,9 +60,15 @@ class Origins:
         if not ds:
             return self.b.names.get(l, '_%d' % l)
         if len(ds) == 1:
-            return self.def_str(ds[0], depth, seen + (l,))
+            s = self.def_str(ds[0], depth, seen + (l,))
+            # an accumulator (`let mut v = Vec::new()` filled through &mut): its name says more than its initialiser
+            if l in self.b.names and re.match(r'^([\w\[\]]+::)?(new|default|with_capacity)\([^()]*\)$', s):
+                return self.b.names[l]
+            return s
         alts = sorted(set(self.def_str(d, depth + 1, seen + (l,)) for d in ds))
         if len(alts) == 1:
+            if l in self.b.names and re.match(r'^([\w\[\]]+::)?(new|default|with_capacity)\([^()]*\)$', alts[0]):
+                return self.b.names[l]
             return alts[0]
         if len(alts) > 4:
             return self.b.names.get(l, '{' + '|'.join(alts[:4]) + '|..}')
@@ -111,6 +117,8 @@ class Origins:
                     return '{closure:%s}' % what.split('::')[-1]
                 if what == 'tuple':
                     return '(' + ', '.join(self.op_str(o, depth + 1, seen) for o in rv['ops'][:6]) + ')'
+                if what == 'array':
+                    return '[' + ', '.join(self.op_str(o, depth + 1, seen) for o in rv['ops'][:6]) + ']'
                 return what
             if k == 'discr':
                 return 'discr(%s)' % self.place_str(rv['pl'], depth, seen)
